@@ -46,6 +46,7 @@ func genC11(x *Ctx) *c11Scen {
 	sc.NoTrim = tp.Chance(120)
 	perm := tp.Perm(len(c11Roots))
 	rid := 0
+	pairSvc, pairA, pairB := -1, 0, 0 // a service with a route pair (relative path of B = full path of A)
 	maxSvcs, moreSvcs := 5, 600
 	if tp.Chance(80) {
 		maxSvcs, moreSvcs = 11, 900 // many services: more mux patterns and more candidates than any small fixed capacity
@@ -82,6 +83,7 @@ func genC11(x *Ctx) *c11Scen {
 			// two routes that share nothing but that spelling
 			rid++
 			sp.Routes = append(sp.Routes, RouteSpec{ID: rid, Method: r0.Method, Path: strings.TrimRight(sp.Root, "/") + r0.Path})
+			pairSvc, pairA, pairB = i, r0.ID, rid
 		}
 		sp.Repath = tp.Chance(150)
 		sc.Svcs = append(sc.Svcs, sp)
@@ -147,6 +149,22 @@ func genC11(x *Ctx) *c11Scen {
 			sc.Ops = append(sc.Ops, AdminOp{Kind: kind, Plain: p.ID})
 		}
 	})
+	if pairSvc >= 0 {
+		// the pair is registered before the generated history starts and the first of the two is removed
+		// at its end, whatever else happens in between
+		pre := []AdminOp{{Kind: "route", Svc: pairSvc, Route: pairA}, {Kind: "route", Svc: pairSvc, Route: pairB}, {Kind: "add", Svc: pairSvc}}
+		var mid []AdminOp
+		for _, o := range sc.Ops {
+			if (o.Kind == "route" || o.Kind == "unroute") && (o.Route == pairA || o.Route == pairB) {
+				continue // the pair is not touched in between
+			}
+			if (o.Kind == "add" || o.Kind == "remove") && o.Svc == pairSvc {
+				continue // nor is its service
+			}
+			mid = append(mid, o)
+		}
+		sc.Ops = append(append(pre, mid...), AdminOp{Kind: "unroute", Svc: pairSvc, Route: pairA})
+	}
 	if tp.Chance(14) {
 		sc.Crowd = []int{9, 14, 17, 24, 40}[tp.G(5)]
 		var pre []AdminOp
